@@ -4,6 +4,7 @@ import (
 	"go/constant"
 	"go/token"
 	"go/types"
+	"sort"
 	"strings"
 
 	"golang.org/x/tools/go/ssa"
@@ -1428,3 +1429,131 @@ func ruleBinOpPairsMatched(r *Run) {
 	}
 }
 
+
+// xxhashEmpty is XXH64 of the empty input with seed 0 (test vector of the xxHash specification).
+const xxhashEmpty uint64 = 0xEF46DB3751D8E999
+
+// ruleKeySiblings (CH-SIB): all implementers of AggregatedLabels must agree on the grouping key
+// of equal label sets, because binary operations, set operators and aggregations match series
+// of different provenance (an aggregation's output against vector(c)) by Key() alone. The
+// general implementer hashes the (name, value) sequence with xxhash; an implementer that stands
+// for one fixed label set must return what that encoder yields for the same set - for the empty
+// set xxhash of no input.
+func ruleKeySiblings(r *Run) {
+	p := r.P
+	iface := p.NamedType(metricPkg, "AggregatedLabels")
+	o := r.Ob("CH-SIB", "AggregatedLabels.Key implementers", "every implementer of AggregatedLabels yields the same Key() for the same label set: an implementer standing for the empty set returns the general encoder's key of the empty set")
+	if iface == nil {
+		o.Fail("-", "interface not found")
+		return
+	}
+	it, ok := iface.Underlying().(*types.Interface)
+	if !ok {
+		o.Fail("-", "AggregatedLabels is not an interface")
+		return
+	}
+	var impls []*types.Named
+	for _, rel := range []string{metricPkg, enginePkg} {
+		sp := p.SSAPkg(rel)
+		if sp == nil {
+			continue
+		}
+		for _, m := range sp.Members {
+			tm, ok := m.(*ssa.Type)
+			if !ok {
+				continue
+			}
+			named, ok := tm.Type().(*types.Named)
+			if !ok || types.IsInterface(named) {
+				continue
+			}
+			if types.Implements(types.NewPointer(named), it) || types.Implements(named, it) {
+				impls = append(impls, named)
+			}
+		}
+	}
+	sort.Slice(impls, func(i, j int) bool { return impls[i].Obj().Name() < impls[j].Obj().Name() })
+	nHash, nFixed := 0, 0
+	bad := false
+	for _, named := range impls {
+		rel := strings.TrimPrefix(named.Obj().Pkg().Path(), modPath+"/")
+		key := p.Method(rel, named.Obj().Name(), "Key")
+		if key == nil {
+			bad = true
+			o.Fail("-", "%s has no Key method body", named.Obj().Name())
+			continue
+		}
+		// the general encoder: feeds a hash and returns its sum
+		hashes := false
+		for _, g := range funcGroup(key) {
+			for _, c := range callsIn(g) {
+				if callee := staticCallee(c); callee != nil && strings.Contains(pkgPathOf(callee), "xxhash") && (callee.Name() == "Write" || callee.Name() == "WriteString") {
+					hashes = true
+				}
+			}
+		}
+		if hashes {
+			nHash++
+			continue
+		}
+		nFixed++
+		// a fixed label set: which one? (only the empty set is understood)
+		empty := false
+		if as := p.Method(rel, named.Obj().Name(), "AsLokiAPI"); as != nil {
+			empty = true
+			allInstrs(as, func(in ssa.Instruction) {
+				if _, ok := in.(*ssa.MapUpdate); ok {
+					empty = false
+				}
+			})
+		}
+		if !empty {
+			bad = true
+			o.Undecide(r.pos(key.Pos()), "%s.Key does not hash and the label set it stands for is not recognisably empty", named.Obj().Name())
+			continue
+		}
+		for _, ret := range returnsOf(key) {
+			for _, lv := range phiLeaves(ret.Results[0]) {
+				if c, ok := constOf(stripConv(lv)); ok {
+					if u, exact := constant.Uint64Val(constant.ToInt(c)); exact && u == xxhashEmpty {
+						continue
+					}
+					bad = true
+					o.Fail(r.pos(ret.Pos()), "%s stands for the empty label set but its Key() is the constant %s, while the general encoder yields xxhash(\"\") = %#x for an empty set: an ungrouped aggregation and vector(c) never match", named.Obj().Name(), c.ExactString(), xxhashEmpty)
+					continue
+				}
+				// xxhash of nothing computed in place
+				if call, ok := stripConv(lv).(*ssa.Call); ok {
+					if callee := staticCallee(call); callee != nil && strings.Contains(pkgPathOf(callee), "xxhash") {
+						switch callee.Name() {
+						case "Sum64":
+							// (*Digest).Sum64 of a fresh digest, or Sum64(nil / empty)
+							if callee.Signature.Recv() != nil {
+								if nc, ok := call.Call.Args[0].(*ssa.Call); ok && staticCallee(nc) != nil && staticCallee(nc).Name() == "New" {
+									continue
+								}
+							} else if len(call.Call.Args) == 1 {
+								if isNilConst(call.Call.Args[0]) {
+									continue
+								}
+							}
+						case "Sum64String":
+							if s, ok := constStr(call.Call.Args[0]); ok && s == "" {
+								continue
+							}
+						}
+					}
+				}
+				bad = true
+				o.Undecide(r.pos(ret.Pos()), "%s.Key returns %s, which the rule cannot relate to the general encoder", named.Obj().Name(), describe(lv, 1))
+			}
+		}
+	}
+	if nHash == 0 {
+		bad = true
+		o.Fail("-", "no hashing implementer of AggregatedLabels found")
+	}
+	if !bad {
+		o.OK("%d implementer(s): %d hashing, %d fixed (empty set) returning xxhash of no input", len(impls), nHash, nFixed)
+	}
+}
